@@ -17,7 +17,7 @@ RULE = ('per (formula, signal set): BFS over ALL schedules, a schedule being a s
         'on every transition: emitted time-stamps never decrease and the concatenated output, read as a step function, equals the dense '
         'reference (shifted by the horizon after pastify) at every grid time it covers; coverage (how far the output reaches) is not constrained; '
         'long layer: 70/71-sample signals, every schedule of at most two calls whose first call delivers (c_x, c_y) with c_v from a cut alphabet '
-        '(quick: around the 64th sample; thorough: every c_v in 0..71)')
+        '(quick: 12 cuts around the 64th sample and the ends; thorough: every fourth c_v in 0..71 plus those)')
 ASSUMPTIONS = ['signals: samples on the half-unit grid at fixed time sets, values in {-1,2}; formulas <= 2 operators (past, and pastified bounded future without until)',
                'reference = vf/dref.py on the complete signal (past formulas do not depend on later input)']
 
@@ -284,7 +284,7 @@ def signal_sets(nvars, tier):
             for vx in itertools.product(F.V2, repeat=len(tx)):
                 for vy in itertools.product(F.V2, repeat=len(ty)):
                     sets.append({'x': tuple(zip(tx, vx)), 'y': tuple(zip(ty, vy))})
-            out += sets[37::128] if quick else sets[5::32]
+            out += sets[37::128] if quick else sets[5::96]
     if quick:
         out = out[:2] + out[3:]     # four of the five time-set combinations (the one that starts at t0 = 1 is kept)
     return out
@@ -312,7 +312,7 @@ def deep_signal_sets(nvars, tier):
     ty = (0.0, 2.0, 4.5, 6.0)
     vals = ((2.0, -1.0, -1.0, 2.0, -1.0, -1.0, 2.0), (-1.0, 2.0, 2.0, -1.0, -1.0, 2.0, -1.0), (-1.0, -1.0, 2.0, -1.0, 2.0, 2.0, 2.0))
     if tier != 'quick':
-        vals = tuple(itertools.product(F.V2, repeat=7))[::9]
+        vals = tuple(itertools.product(F.V2, repeat=7))[::18]
     if nvars == 1:
         return [{'x': tuple(zip(tx, v))} for v in vals]
     # two variables: 5 + 3 samples keep the schedule space (all alignments of all cuts) within a few thousand transitions
@@ -333,7 +333,7 @@ def run_shard(shard, tier, res):
             sig = {v: sig['x' if (v == 'y' and len(vs) == 1) else v] for v in vs}
             if shard.get('long'):
                 m = TwoCallModel(f, text, vs, sig, pastify)
-                m.cuts = LONG_CUTS_QUICK if tier == 'quick' else tuple(range(0, 72))
+                m.cuts = LONG_CUTS_QUICK if tier == 'quick' else tuple(sorted(set(range(0, 72, 4)) | set(LONG_CUTS_QUICK)))
             else:
                 try:
                     m = ScheduleModel(f, text, vs, sig, pastify)
